@@ -96,6 +96,7 @@ static bool replay(const vf::Case& c, std::string* why) {
 }
 
 static void run(const vf::Args& a, vf::Evidence& ev, vf::Reporter& rep) {
+  vf::History::enabled() = true;  // failing cases carry the cases that ran just before them (state between calls)
   EV = &ev; ARGS = &a;
   ev.rule = "rapidcheck: zone (UTC, 14 fixed offsets incl. +-30 s, +-23:59:59, +-24h; 12 shipped zones) x anchored instant (int64 "
             "limits, outermost 2 days, transitions, year boundaries around -1000/0/9999/10000 and the int-year limits, uniform) x "
